@@ -191,13 +191,22 @@ class Ctx:
         s.nontrivial = False
         s.counting = True     # calls made while False are set-up, not counted as non-trivial cases
 
-    def call(s, op, *args, suite=None, impl_only=False):
+    def call(s, op, *args, suite=None, impl_only=False, model_args=None, model_op=None):
+        """impl_only: the model is not asked (bulk sweeps; harness-only ops).
+        model_args/model_op: the model gets a different spelling of the same request (e.g. `flow`
+        without the reload arguments, which the model treats as the identity)."""
         if impl_only and s.side == "model":
             return None
+        if s.side == "model" and model_args is not None:
+            args = model_args
+        if s.side == "model" and model_op is not None:
+            rec_op, op = op, model_op
+        else:
+            rec_op = op
         toks = [a if isinstance(a, str) else (ohx(a) if (a is None or isinstance(a, (bytes, bytearray))) else str(a))
                 for a in args]
         st, pl = s.proc.call(suite or s.suite, op, toks)
-        s.trace.append({"op": op, "suite": suite or s.suite, "args": toks, "status": st,
+        s.trace.append({"op": rec_op, "suite": suite or s.suite, "args": toks, "status": st,
                         "payload": pl, "impl_only": impl_only, "counted": s.counting})
         return Res(st, pl)
 
